@@ -1,5 +1,6 @@
 """C13 — the library never panics, overflows or hangs, whatever the input."""
 from engine.rulekit import facts as factsmod
+from engine.rulekit import inline as I
 from engine.rulekit import mir as M
 from engine.rulekit import scans
 from rules import c11 as C11
@@ -208,8 +209,20 @@ def run(ck, F):
         remaining = {c: set() for c in comp}
         n_edges = 0
         has_descent = False
+        # each member with its private helpers and the closures it calls directly inlined (calls to members of the cycle stay calls):
+        # a guard that lives in a helper taking the recursive step as a closure is then seen in one body
+        member_stop = lambda p, cs=cs: p in cs and "{closure" not in p
+        bodies_ = {}
+        absorbed = set()
         for c in comp:
-            B = M.Body(F.lib.body(c))
+            if "{closure" in c:
+                continue
+            bodies_[c] = M.Body(I.Inliner(F.lib, stop=member_stop).body(F.lib.body(c)))
+            absorbed |= {p for p, _ in bodies_[c].fact.get("inlined", []) if "{closure" in p}
+        for c in comp:
+            if c in absorbed:
+                continue   # its calls are part of the function that calls it (inlined there)
+            B = bodies_.get(c) or M.Body(F.lib.body(c))
             seen = {}
             for bb, t in B.calls():
                 callee = M.Body.callee(t) or ""
